@@ -36,6 +36,7 @@ func findMatches(insts []bytecode.SearchInstruction, all bool, skip int, take in
 	for all || matchNumber < skip+take {
 		currentState := CreateState(filename, reader, fileOffset, lineNumber, columnNumber)
 		for currentState.status == INPROCESS {
+			verifTick()
 			inst := insts[currentState.programCounter]
 			currentState = matchInstruction(inst, currentState)
 			// fmt.Printf("PC: %d INST: %+v STATE: %+v\n", currentState.programCounter, inst, currentState)
